@@ -146,6 +146,10 @@ class State:
 
     def oblige(self, kind, site, goal, descr=""):
         self.run.add_obligation(self, kind, site, goal, descr)
+        if kind in ("nowrap", "conv", "ordisjoint", "andmask") and goal is not True and goal is not False:
+            # assert, then assume: the exact (mathematical) value is used from here on
+            for g in conjuncts(goal):
+                self.hyps.append(g)
 
     def assume(self, f):
         if f is True:
@@ -633,10 +637,20 @@ class FuncRun:
         ev = Evaluator(self, st, self.old_mem, self.contract_env(), phase="pre", assume=True)
         for lab, ast, txt, gpkg in self.V.globalinv_for(self):
             ev.pkg = gpkg
-            st.assume(ev.bool(ast))
+            try:
+                st.assume(ev.bool(ast))
+            except (VerifError, Unsupported, KeyError):
+                # an invariant stated in another tier's vocabulary: not available in this mode (losing a hypothesis is sound)
+                if self.mode == "ring":
+                    raise
         ev.pkg = self.f.get("pkg", "")
         for lab, ast, txt in self.c.requires:
             st.assume(ev.bool(ast))
+        for lab, ast, txt in self.c.lemmas:
+            g = ev.bool(ast)
+            self.add_named(st, "lemma", "lemma.%s" % (lab or "nia"), "", g, txt)
+            self.obligations[-1].nia = True
+            st.assume(g)
         for kind, txt in self.c.other:
             if kind == "assume":
                 from .cparse import parse_expr, split_label
@@ -645,6 +659,23 @@ class FuncRun:
                 self.V.assumed.add((self.fname, lab or "", e))
         self.old_mem = dict(st.mem)   # requires may have created lazy cells
         self.entry_hyps = list(st.hyps)
+        entry_states = [st]
+        for kind, txt in self.c.other:
+            if kind == "entrysplit":
+                import re as _re
+                from .cparse import parse_expr
+                m = _re.match(r"^(.*)\s+in\s+(-?\d+)\s*\.\.\s*(-?\d+)$", txt)
+                lo, hi = int(m.group(2)), int(m.group(3))
+                e = ev.int(parse_expr(m.group(1)))
+                rng = mk_and(self.dom.s_cmp("<=", self.dom.s_const(lo), e), self.dom.s_cmp("<", e, self.dom.s_const(hi)))
+                self.add_named(st, "pre", "entrysplit.exhaustive", "", rng, "entry case split over %d..%d covers the precondition" % (lo, hi))
+                new_states = []
+                for s0 in entry_states:
+                    for k_ in range(lo, hi):
+                        s2 = s0.fork()
+                        s2.assume(self.dom.s_cmp("==", e, self.dom.s_const(k_)))
+                        new_states.append(s2)
+                entry_states = new_states
         # vacuity cover of the precondition
         self.add_named(st, "cover", "cover.requires", "", "COVER", "precondition is satisfiable")
         if self.f.get("lemma"):
@@ -660,7 +691,7 @@ class FuncRun:
                 pass
             self.paths += 1
             return self.obligations
-        work = [st]
+        work = list(reversed(entry_states))
         self.work = work
         while work:
             s = work.pop()
@@ -671,12 +702,15 @@ class FuncRun:
             self.paths += 1
         return self.obligations
 
-    def contract_env(self):
+    def contract_env(self, st=None):
         from .ceval import wrap_typed
         env = {}
         for i, p in enumerate(self.f["params"]):
             nm = self.c.params[i] if i < len(self.c.params) else p["name"]
-            v = wrap_typed(self.prog, self.param_vals[p["name"]], p["type"])
+            pv = self.param_vals[p["name"]]
+            if st is not None and isinstance(pv, SliceV) and isinstance(st.regs.get(p["name"]), SliceV):
+                pv = st.regs[p["name"]]   # lengths fixed by the path condition are concrete here
+            v = wrap_typed(self.prog, pv, p["type"])
             env[nm] = v
             env[p["name"]] = v
         return env
@@ -777,7 +811,7 @@ class FuncRun:
         st.loopstack.append({"head": head, "allowed": allowed, "objmark": set(self.objs), "dec": dec})
 
     def loop_env(self, st, k):
-        env = dict(self.contract_env())
+        env = dict(self.contract_env(st))
         return env
 
     # ------------------------------------------------------------ return / panic
@@ -785,7 +819,7 @@ class FuncRun:
         from .ceval import Evaluator
         self.returns += 1
         from .ceval import wrap_typed
-        env = dict(self.contract_env())
+        env = dict(self.contract_env(st))
         rts = self.f["results"]
         if len(results) == 1:
             env["result"] = wrap_typed(self.prog, results[0], rts[0])
@@ -797,10 +831,11 @@ class FuncRun:
         for kind, txt in self.c.other:
             if kind == "use":
                 st.assume(self.lemma_instance(ev, txt))
-        for i, (lab, ast, txt) in enumerate(list(self.c.ensures) + list(self.c.ensures_body)):
+        chain = self.mode == "ring" or "chainposts" in self.c.opts
+        for i, (lab, ast, txt) in enumerate(list(self.c.ensures_body) + list(self.c.ensures)):
             g = ev.bool(ast)
             self.add_named(st, "post", "post.%s" % (lab or str(i + 1)), ins.get("pos", ""), g, txt)
-            if self.mode == "ring" and g is not True:
+            if chain and g is not True:
                 # each postcondition is proved on its own; later ones may rely on the earlier ones
                 st = st.fork()
                 st.hyps.append(g)
@@ -811,6 +846,8 @@ class FuncRun:
         for key, old in self.old_mem.items():
             if key in allowed:
                 continue
+            if key not in st.mem:
+                continue   # a lazily created input cell this path never touched
             cur = st.mem.get(key)
             if cur is old or cur == old:
                 continue
